@@ -90,6 +90,10 @@ func modelHasMethod(kind, m string) bool {
 		return m == "BlockSize" || m == "Encrypt" || m == "Decrypt"
 	case "ecdhcurve":
 		return m == "GenerateKey"
+	case "fileinfo":
+		return m == "Mode" || m == "IsDir" || m == "Name" || m == "Size" || m == "Sys" || m == "ModTime"
+	case "direntry":
+		return m == "Name" || m == "IsDir" || m == "Type" || m == "Info"
 	}
 	return false
 }
@@ -176,6 +180,17 @@ func sameChunks(a, b []hashChunk) bool {
 func (in *Interp) modelMethod(mo *ModelObj, name string, args []Value) Value {
 	tb := in.tb
 	switch mo.Kind {
+	case "fileinfo":
+		return in.fsFileInfoMethod(mo.Data.(*fsInfo), name, args)
+	case "direntry":
+		de := mo.Data.(*fsDirent)
+		switch name {
+		case "Name":
+			return de.name
+		case "IsDir":
+			return tb.Bool(de.node.kind == fsDir)
+		}
+		panic("DirEntry." + name + " not modelled")
 	case "ecdhcurve":
 		if name == "GenerateKey" {
 			in.ghost.counts["ecdhkey"]++
@@ -659,6 +674,7 @@ func registerNatives(in *Interp) {
 	registerTimeNatives(in)
 	registerPathNatives(in)
 	registerLocksetNatives(in)
+	registerFSNatives(in)
 }
 
 // bufferAppend implements the write side of bytes.Buffer on its real fields.
